@@ -253,7 +253,7 @@ def check_api(case, when, stats: Stats | None):
 def _post_checks(bad, rig, sd, t_mark, api):
     net, loop = rig.net, rig.loop
     n_attempts, n_conns = len(net.attempts), len(net.conns)
-    tx0 = sum(len(c.writes) for c in net.conns)
+    tx0 = sum(len(c.writes) + len(c.late_writes) for c in net.conns)
     t0 = loop.time()
 
     def leaks(tag):
@@ -278,8 +278,10 @@ def _post_checks(bad, rig, sd, t_mark, api):
                                       f"(first at t={net.attempts[n_attempts][0]}, shutdown returned at t={t0})")
     if len(net.conns) != n_conns or net.open_conns:
         bad("connection-after-shutdown", "a connection was established after shutdown returned")
-    if sum(len(c.writes) for c in net.conns) != tx0:
-        bad("write-after-shutdown", "bytes were written after shutdown returned")
+    if sum(len(c.writes) + len(c.late_writes) for c in net.conns) != tx0:
+        late = [(t, c.cid) for c in net.conns for t, _b in c.late_writes if t >= t0]
+        bad("write-after-shutdown", "bytes were written after shutdown returned" +
+            (f" (handed to closed connection(s) at {late[:3]})" if late else ""))
     leaks("after idle period")
     # Reports of the kind "Task exception was never retrieved" for a subscriber task orphaned by the
     # cancellation of its notifier are outside the statement (nothing remains scheduled): not judged.
@@ -304,7 +306,7 @@ def _post_checks(bad, rig, sd, t_mark, api):
                 r = loop.call(z.set_damper_percentage(50))
                 if r[0] != "raise" or not isinstance(r[1], sockmod.NotOpenError):
                     bad("command-after-shutdown", f"command on a retained zone after shutdown: {r!r} instead of NotOpenError")
-    if sum(len(c.writes) for c in net.conns) != tx0:
+    if sum(len(c.writes) + len(c.late_writes) for c in net.conns) != tx0:
         bad("write-after-shutdown", "a command after shutdown wrote bytes")
 
 
@@ -393,8 +395,21 @@ def _sock_scenario(draw, gen: int):
         if not any(x[0] == t0 for x in losses):
             losses = (losses + [[t0, 0]])[-2:]
         resets = sorted((resets + [t0] * draw(st.integers(2, 3)))[-4:])
+    extra = {}
+    if draw(st.integers(0, 5)) == 0:
+        # queue behind a stalled flush (one scenario in six): three to five messages are submitted while the first
+        # connection attempt is still in flight; the console accepts but does not read, so the flush the socket starts on
+        # connecting blocks in drain() with the rest of the queue behind it; a caller's send() then joins (its own flush
+        # blocks as well, in the caller's task, which close() does not cancel); close() comes 1/16 .. 1 s later and is what
+        # releases the blocked drain() calls.  Nothing that is still queued may be handed to any connection afterwards.
+        lat = draw(st.sampled_from([0.125, 1.0]))
+        script = [["accept", lat]]
+        sends = [[0.0, draw(sockops.kind_and_params(gen)), draw(st.sampled_from(["idem", [3, 60.0]]))] for _ in range(draw(st.integers(3, 5)))]
+        sends.append([lat + 0.0625, draw(sockops.kind_and_params(gen)), "idem"])
+        losses, faults, resets, stall = [], [], [], None
+        extra = {"pause_on_accept": 1, "force_T": lat + 0.0625 + draw(st.sampled_from([0.0625, 0.5, 1.0]))}
     return {"mode": "sock", "gen": gen, "script": script, "sends": sorted(sends, key=lambda s: s[0]), "losses": sorted(losses),
-            "faults": sorted(faults, key=lambda f: f[0]), "resets": resets, "stall": stall,
+            "faults": sorted(faults, key=lambda f: f[0]), "resets": resets, "stall": stall, **extra,
             "loss_kinds": [draw(st.sampled_from(["reset", "eof", "garbage"])) for _ in losses], "close_latency": draw(st.sampled_from([0.0, 0.0, 0.125, 1.0]))}
 
 
@@ -403,6 +418,8 @@ def _mk_sock(case):
     for e in case["script"]:
         rig.net.script.append(tuple(e))
     rig.net.close_latency = case.get("close_latency", 0.0)
+    if case.get("pause_on_accept"):
+        rig.net.pause_on_accept.append(case["pause_on_accept"])
     handles = []
 
     def send(kp, pol):
@@ -469,6 +486,10 @@ def check_sock(case, when, stats: Stats | None):
         T, same_instant = case["faults"][when["pick"] % len(case["faults"])][0], True
         when = dict(when, uniform=None)
         full["close_at_write_fault"] = True
+    if case.get("force_T") is not None:
+        T, same_instant = case["force_T"], False
+        when = dict(when, uniform=None, early=False, after=False)
+        full["queue_behind_stalled_flush"] = True
     sd = {}
     rig, handles = None, None
 
@@ -476,7 +497,11 @@ def check_sock(case, when, stats: Stats | None):
         sd["phase"] = (rig.sock.is_connected, rig.net.inflight, len(rig.sock._message_queue))
         tr = rig.net.current
         sd["stalled"] = bool(tr is not None and tr.alive and tr.write_paused)
-        sd["task"] = rig.loop.spawn(rig.sock.close())
+        async def closer():
+            await rig.sock.close()
+            # exactly at the return of close(): what the client hands to dead connections from here on comes after it
+            sd["late_at_return"] = sum(len(c.late_writes) for c in rig.net.conns)
+        sd["task"] = rig.loop.spawn(closer())
     if when["early"]:
         rig = SockRig(case["gen"])
         rig.loop.call_at(T, fire)
@@ -503,6 +528,10 @@ def check_sock(case, when, stats: Stats | None):
             bad("close-failed", f"close(): {o!r}")
         rig.net.heal()
         rig.loop.settle()
+        late = [(t, c.cid, b.hex()[:24]) for c in rig.net.conns for t, b in c.late_writes][sd.get("late_at_return", 0):]
+        if late:
+            bad("write-after-shutdown", f"close() had returned; afterwards the client handed bytes to connection(s) that were already "
+                                        f"closed: (t, connection, first bytes) {late[:3]} - messages still queued at close() were flushed")
         if when.get("reopen"):
             # the socket is opened again straight away (what a re-init does): it must behave like a fresh one - connect,
             # and transmit nothing of its own accord; in particular nothing that was submitted before close()
@@ -543,6 +572,8 @@ def check_sock(case, when, stats: Stats | None):
             classes.append("close-in-the-instant-of-a-write-fault")
         if sd.get("stalled"):
             classes.append("close-while-a-write-is-stalled")
+        if full.get("queue_behind_stalled_flush") and sd.get("stalled") and ph[2]:
+            classes.append("queue-behind-a-stalled-flush")
         if same_instant:
             classes.append("same-instant")
         if stats is not None:
@@ -611,7 +642,8 @@ def shards(tier: str):
 
 def floors(tier: str):
     return {"same-instant": 50, "phase:connecting": 20, "phase:backoff-or-idle": 20, "phase:handshake": 10, "phase:initialised": 20,
-            "pending-messages": 10, "reinit": 30, "write-fault-in-caller-task": 40, "close-while-a-write-is-stalled": 15, "close-in-the-instant-of-a-write-fault": 40, "at-a-last-handshake-answer+slow-close": 20}
+            "pending-messages": 10, "reinit": 30, "write-fault-in-caller-task": 40, "close-while-a-write-is-stalled": 15, "close-in-the-instant-of-a-write-fault": 40, "at-a-last-handshake-answer+slow-close": 20,
+            "queue-behind-a-stalled-flush": 40}
 
 
 def run_shard(spec, seed: int, tier: str):
